@@ -924,8 +924,11 @@ class LoopSpec:
 class Contract:
     def __init__(self, name, requires=None, ensures=None, assigns=None, loops=None, transparent=False,
                  pure=False, extern=False, props=(), unroll=None, model=None, ghost_init=None, inputs=None,
-                 note=None, cases=None, logic=None, lang_requires=None):
+                 note=None, cases=None, logic=None, lang_requires=None, defs=None):
         self.name = name
+        # defs: instances of the DEFINITIONS of ghost view functions (view(array, i) := the value stored at entry i) at the entry a
+        # call touches.  Added to the caller's path at call sites, never an obligation: a definitional (conservative) extension.
+        self.defs = defs
         # lang_requires: guarantees of the language / calling convention (distinct references do not overlap, ...);
         # requires: the domain over which the functional postcondition is stated
         self.lang_requires = lang_requires or (lambda c: [])
@@ -1562,6 +1565,9 @@ class Executor(Engine):
         cx2.log = st.log
         for label, e in c.ensures(cx2):
             st.pc.append(simp(e))
+        if c.defs is not None:
+            for label, e in c.defs(cx2):
+                st.pc.append(simp(e))
         st.log.append(('call', dem, list(args), rv))
         if ins.dest:
             fr.regs[ins.dest] = rv
